@@ -658,13 +658,57 @@ pub fn el_verify<S: Elem>(what: &str, bytes: &[u8], bits: u128, peer_wb: usize) 
     }
 }
 
+/// Optional codec surface: `Wrapping<F>` has no `Encode`/`Decode` today, so C10's "and Wrapping<F>" is
+/// vacuous for the wire format. If a change adds them, they must be the plain bits too. Probed with the
+/// same autoref selection.
+pub struct WrWrap<T>(pub core::marker::PhantomData<T>);
+pub trait WrYes {
+    fn check(&self, bits: u128, name: &str) -> Option<String>;
+}
+impl<T: Lay> WrYes for WrWrap<T>
+where
+    Wrapping<T>: Encode + Decode,
+{
+    fn check(&self, bits: u128, name: &str) -> Option<String> {
+        let w = Wrapping(T::fb(bits));
+        let got = w.encode();
+        let want: Vec<u8> = (0..T::WB).map(|i| (bits >> (8 * i)) as u8).collect();
+        if got != want {
+            return Some(format!("Wrapping<{}> has a SCALE codec, but it encodes bits {:#x} as {:02x?}, not as the plain little-endian bytes {:02x?}", name, bits, got, want));
+        }
+        if w.encoded_size() != T::WB {
+            return Some(format!("Wrapping<{}>::encoded_size() = {}, width/8 = {}", name, w.encoded_size(), T::WB));
+        }
+        let mut s: &[u8] = &want;
+        match <Wrapping<T> as Decode>::decode(&mut s) {
+            Ok(v) if v.0.tb() == bits && s.is_empty() => {}
+            other => return Some(format!("Wrapping<{}> has a SCALE codec, but decoding the plain bytes {:02x?} gave {:?} with {} bytes left", name, want, other.map(|v| v.0.tb()).map_err(|e| e.to_string()), s.len())),
+        }
+        for cut in 0..T::WB {
+            let mut s: &[u8] = &want[..cut];
+            if <Wrapping<T> as Decode>::decode(&mut s).is_ok() {
+                return Some(format!("Wrapping<{}>: decoding {} of {} bytes succeeded", name, cut, T::WB));
+            }
+        }
+        None
+    }
+}
+pub trait WrNo {
+    fn check(&self, bits: u128, name: &str) -> Option<String>;
+}
+impl<T> WrNo for &WrWrap<T> {
+    fn check(&self, _: u128, _: &str) -> Option<String> {
+        None
+    }
+}
+
 #[macro_export]
 macro_rules! el_check {
     ($T:ty, $bits:expr) => {{
         #[allow(unused_imports)]
-        use $crate::lay::{ElNo as _, ElYes as _};
+        use $crate::lay::{ElNo as _, ElYes as _, WrNo as _, WrYes as _};
         let bits: u128 = $bits;
-        let mut found: Option<String> = None;
+        let mut found: Option<String> = (&$crate::lay::WrWrap::<$T>(core::marker::PhantomData)).check(bits, stringify!($T));
         $crate::el_check!(@pair $T, bits, found; i8 i16 i32 i64 i128 u8 u16 u32 u64 u128);
         found
     }};
